@@ -39,6 +39,8 @@ type harness struct {
 	obs      map[string]*obligation
 	obOrder  []string
 	reported map[string]int
+	// one case in cloneShare is repeated against Clone(), one in routeShare through apifu.API
+	cloneShare, routeShare int
 }
 
 type obligation struct {
@@ -453,6 +455,46 @@ func (h *harness) judge(p *prepared, an *answers) []failure {
 				bad(orHook, fmt.Sprintf("%d hooked objects observed but the hooks were invoked %d times", want, o.HookCalls))
 			} else if want > 0 {
 				h.ob(orHook, "oracle", true, "")
+			}
+		}
+		// other routes into the same core (a deterministic share of the cases)
+		caseKey := c.ArgDefs + "|" + c.VarDefs + "|" + c.Args + "|" + c.Raw + "|" + c.Site + "|" + c.AltVarDefs
+		cloneShare, routeShare := h.cloneShare, h.routeShare
+		if g.Routes {
+			cloneShare, routeShare = 1, 1
+		}
+		if o.Class != "odd" && pickShare(caseKey+"|clone", cloneShare) {
+			if msg := cloneRoute(c, o); msg != "" {
+				bad(orClone, msg)
+			} else {
+				h.ob(orClone, "oracle", true, "")
+			}
+		}
+		if g.Site == "field" && c.AltVarDefs == "" && o.Class != "odd" && o.Ungated != "syntax-error" {
+			jsonOnly, unset := true, false
+			supplied := map[string]bool{}
+			for _, rw := range pc.raw {
+				supplied[rw.Name] = true
+				if !jsonKindsOnly(rw.V) {
+					jsonOnly = false
+				}
+			}
+			for _, vd := range pc.varDefs {
+				if !supplied[vd.Name] {
+					unset = true
+				}
+			}
+			share := routeShare
+			if unset || strings.ContainsAny(c.Raw, "+%") {
+				share = (share + 7) / 8 // omitted variables and characters URLs escape: the routes' own business
+			}
+			if jsonOnly && pickShare(caseKey+"|routes", share) {
+				h.run.Count("routes:cases")
+				if problems := apiRoutes(c, o); len(problems) > 0 {
+					bad(orRoutes, strings.Join(problems, "; "))
+				} else {
+					h.ob(orRoutes, "oracle", true, "")
+				}
 			}
 		}
 		// Go kinds: a re-encoding that still denotes the client value is either refused or coerces to
@@ -1248,7 +1290,7 @@ func loadGroup(path string) (*Group, error) {
 
 func main() {
 	run := hx.Init("C05")
-	h := &harness{run: run, dtKnown: map[string]bool{}, obs: map[string]*obligation{}, reported: map[string]int{}}
+	h := &harness{run: run, dtKnown: map[string]bool{}, obs: map[string]*obligation{}, reported: map[string]int{}, cloneShare: 8, routeShare: 96}
 	if run.ModelPath != "" {
 		m, err := hx.StartModel(run.ModelPath)
 		if err != nil {
